@@ -208,7 +208,8 @@ def run_kani_units(units, tier, jobs, keep=False):
                        'kind': h.get('kind', 'verify')}
                 if not ok:
                     rec['raw'] = res[h['name']]['raw']
-                    if True:
+                    n_playbacks = sum(1 for x in obls if x.get('concrete_playback') is not None or x.get('native_replay') is not None)
+                    if n_playbacks < 2:   # counterexample + native replay for the first two failing harnesses of a run (each costs minutes)
                         try:
                             rec['concrete_playback'] = kani.concrete_playback(sc, u['package'], h['name'])
                             rec['native_replay'] = kani.native_playback(sc, u['package'], h['name'], rec['concrete_playback'])
